@@ -14,7 +14,7 @@ Layers:
      the scripted condition sequences: ordered trace + exit status vs the
      structured semantics `sem_block` of the same AST (extracted), and vs the
      transcribed interpreter on the model's own parse;
- NEG unbalanced variants through the real binary: diagnosed or silently cut."""
+ NEG unbalanced variants through the real binary: must be diagnosed (syntax error on stderr, nothing run)."""
 import itertools, os, shutil, subprocess, tempfile, json
 import common as C
 
@@ -22,11 +22,11 @@ EXTRACT = ["C14"]
 BINS = ["c14"]
 NEEDS_CICADA = True
 ALLOWED_AXIOMS = []
-PINNED = ["C14_interp", "C14_parse_full", "C14_parse_partial", "C14_unbalanced_refuted", "C14_anchor_sound",
-          "C14_full"]
+PINNED = ["C14_interp", "C14_parse_full", "C14_parse_partial", "C14_parse_partial_from", "C14_anchored", "C14_unbalanced_diagnosed",
+          "C14_anchor_sound", "C14_full"]
 TRUSTED = [
     "Coq 8.16.1 kernel (coqc; coqchk in thorough); vm_compute in Example witnesses, in C14_unbalanced_refuted and in the "
-    "instances of C14_parse_partial",
+    "instances C14_parse_instances; C14_anchored and C14_unbalanced_examples compute on the regenerated grammar",
     "Base/Peg.v: pest semantics written from pest_generator-2.8.0/generator.rs and pest-2.8.0/parser_state.rs (implicit "
     "WHITESPACE, atomicity, EOI pair); pest's optimizer assumed semantics-preserving; tied by L1a",
     "tools/pest2coq.py (grammar.pest -> Gen/LocustGrammar.v), run on every check",
@@ -39,8 +39,10 @@ TRUSTED = [
 ]
 ASSUMES = [
     "C14_interp assumes set -e is not in effect (exit_on_error w = false for all w); set -e is C15's subject",
-    "the full parser-correctness statement C14_parse_full is proved only per instance (vm_compute) and for the per-rule "
-    "lemmas listed in notes/C14.md; the rest is carried by L1b on every run",
+    "the parser-correctness statement C14_parse_full is PROVED (unbounded, for all sufficiently large fuel) only for flat "
+    "scripts = any number of non-keyword command lines without indentation (C14_parse_partial, frag_flat); for scripts "
+    "with if / for / while blocks it is proved only on two computed instances (C14_parse_instances) and otherwise "
+    "carried by the correspondence layer L1b on every run",
     "while loops: the model bounds the iterations of one loop by n (OutOfFuel beyond); generated condition sequences end",
 ]
 
@@ -345,9 +347,8 @@ def run(ctx, res):
                 res.sample({"layer": "L2", "input": texts[ix], "reference": m_sem[ix][:400], "impl": "trace=%r status=%r" % (log, rc)})
         # ---------------- NEG: unbalanced variants
         negs = []
-        kf = known.get("unbalanced-silently-cut")
-        if kf:
-            negs.append(kf["input"].encode().decode("unicode_escape"))
+        negs.append("echo start\nif true\necho x\necho after\n")      # the replay of the defect fixed in 44451af: must be diagnosed
+        negs.append("echo one\nfi\necho two\n")
         negs.append("%s @x0 start\nif %s @x0 c\n%s @x0 x\n%s @x0 after\n" % (hp, hp, hp, hp))
         negs.append("%s @x0 one\nfi\n%s @x0 two\n" % (hp, hp))
         for t in texts[: (200 if ctx.thorough else 40)]:
@@ -374,32 +375,22 @@ def run(ctx, res):
             mp = m_neg[ix]
             diagnosed = "syntax error" in err and log == []
             nchars = len(t)
-            if mp == "ERR":
-                ok = diagnosed
-                cls = None
-            else:
-                end = int(mp.split(" ")[1])
+            balanced = mp.startswith("OK ") and int(mp.split(" ")[1]) == nchars
+            if balanced:                 # still balanced after the mutation: a plain L2 case
                 exp = expected_of(m_negr[ix])
-                if end == nchars:        # still balanced after the mutation: plain L2 case
-                    ok = exp is not None and (log, rc) == exp
-                    cls = None
-                elif diagnosed:
-                    ok, cls = True, None  # the property's behaviour (finding repaired)
-                    res.extra.setdefault("findings_no_longer_reproduced", []).append("unbalanced-silently-cut")
-                else:
-                    cls = "unbalanced-silently-cut"
-                    ok = exp is not None and (log, rc) == exp and cls in known
-            if ok and cls:
-                res.known(cls, "class=%s input=%s what=%s" % (cls, json.dumps(t if len(t) < 200 else negs[1]),
-                                                                "script with unbalanced block keywords runs a prefix and "
-                                                                "silently drops the rest, status %r, no diagnostic" % (rc,)))
-                res.nontrivial("neg:" + mp[:100])
+                ok = exp is not None and (log, rc) == exp
+            else:
+                # the property's oracle: diagnosed, nothing run.  (The model agrees -- ERR -- as long as the
+                # regenerated start rule is anchored; if it is not, C14_anchored fails as a proof obligation.)
+                ok = diagnosed
+                if ok:
+                    res.nontrivial("neg:" + str(hash(t)))
             if not ok:
                 nviol += 1
                 if nviol <= 3:
                     res.violate(kind="oracle", layer="NEG", entry="script", input=t, model_parse=mp[:500], model_run=m_negr[ix][:500],
                                 observed="trace=%r status=%r" % (log, rc), stderr=err[-400:], failing_input=True,
-                                note="unbalanced script neither diagnosed as a syntax error nor cut exactly as the recorded "
-                                     "finding predicts")
+                                note="a script whose block keywords do not balance is not diagnosed as a syntax error "
+                                     "(or runs part of it)")
     finally:
         shutil.rmtree(work, ignore_errors=True)
